@@ -322,5 +322,201 @@ def main():
     json.dump(res, open(out, 'w'), indent=1)
 
 
+
+
+# ------------------------------------------------------------------------------------------------
+# C05-L1: the IEEE-754 delay guard of Buffer._pass_part_downstream (QF_BVFP, cvc5 binary)
+# ------------------------------------------------------------------------------------------------
+class FpTranslator:
+    """Python float expression over named doubles -> SMT-LIB FloatingPoint term (round-to-nearest-even,
+    like CPython).  Knows self.env.now, self._minimum_delay, a parameter name, np.nextafter(x, np.inf) for
+    a non-negative finite x given as a bit-vector, and calls to one-line sibling methods (inlined)."""
+
+    def __init__(self, cls_node, names):
+        self.cls = cls_node
+        self.names = names          # python expression text -> SMT term
+
+    def expr(self, n, local=None):
+        local = local or {}
+        src = ast.unparse(n)
+        if src in local:
+            return local[src]
+        if src in self.names:
+            return self.names[src]
+        if isinstance(n, ast.BinOp) and isinstance(n.op, (ast.Sub, ast.Add)):
+            op = 'fp.sub' if isinstance(n.op, ast.Sub) else 'fp.add'
+            return f'({op} RNE {self.expr(n.left, local)} {self.expr(n.right, local)})'
+        if isinstance(n, ast.Call) and ast.unparse(n.func) == 'np.nextafter' and ast.unparse(n.args[1]) == 'np.inf':
+            inner = ast.unparse(n.args[0])
+            if inner not in self.names or inner + '#bv' not in self.names:
+                raise Untranslatable('nextafter of an expression that is not a bit-vector backed variable')
+            return f'((_ to_fp 11 53) (bvadd {self.names[inner + "#bv"]} #x0000000000000001))'
+        if isinstance(n, ast.Call) and isinstance(n.func, ast.Attribute) and ast.unparse(n.func.value) == 'self':
+            m = next((f for f in self.cls.body if isinstance(f, ast.FunctionDef) and f.name == n.func.attr), None)
+            if m is None or len(m.body) != 1 or not isinstance(m.body[0], ast.Return):
+                raise Untranslatable(f'cannot inline {n.func.attr}')
+            params = [a.arg for a in m.args.args[1:]]
+            loc = {p: self.expr(a, local) if ast.unparse(a) not in self.names.get('#args', {}) else self.names['#args'][ast.unparse(a)]
+                   for p, a in zip(params, n.args)}
+            return self.expr(m.body[0].value, loc)
+        if isinstance(n, ast.Compare) and len(n.ops) == 1 and isinstance(n.ops[0], (ast.Gt, ast.Lt, ast.GtE, ast.LtE)):
+            op = {ast.Gt: 'fp.gt', ast.Lt: 'fp.lt', ast.GtE: 'fp.geq', ast.LtE: 'fp.leq'}[type(n.ops[0])]
+            return f'({op} {self.expr(n.left, local)} {self.expr(n.comparators[0], local)})'
+        raise Untranslatable(f'float expression {src[:60]}')
+
+
+def _c05_terms():
+    tree = ast.parse(open(BUF).read())
+    cls = next(n for n in tree.body if isinstance(n, ast.ClassDef) and n.name == 'Buffer')
+    fn = next(f for f in cls.body if isinstance(f, ast.FunctionDef) and f.name == '_pass_part_downstream')
+    assign = next((s for s in fn.body if isinstance(s, ast.Assign) and ast.unparse(s.targets[0]) == 'min_time_change'), None)
+    if assign is None:
+        raise Untranslatable('no `min_time_change = ...` in Buffer._pass_part_downstream')
+    loop = next((s for s in fn.body if isinstance(s, ast.While)), None)
+    guard = None
+    if loop is not None:
+        for s in loop.body:
+            if isinstance(s, ast.If) and len(s.body) == 1 and isinstance(s.body[0], ast.Break):
+                guard = s.test
+                break
+    if guard is None:
+        raise Untranslatable('no `if <remaining wait> > min_time_change: break` guard at the top of the release loop')
+    names = {'self.env.now': 'now', 'self.env.now#bv': 'bnow', 'self._minimum_delay': 'd', 'self._buffer[0][0]': 's'}
+    tr = FpTranslator(cls, names)
+    mtc = tr.expr(assign.value)
+    stay = tr.expr(guard, {'min_time_change': mtc})
+    return mtc, stay
+
+
+def _c05_real_leaves(now, s, d):
+    """Run the real Buffer._pass_part_downstream on one stored part: does it leave?"""
+    from simprocesd.model import Environment
+    from simprocesd.model.factory_floor import Buffer, Part
+    from simprocesd.model.system import System
+    System()
+
+    class Taker:
+        name = 'taker'
+        waiting_for_part_start_time = 0
+        taken = False
+
+        def give_part(self, part):
+            Taker.taken = True
+            return True
+    Taker.taken = False
+    b = Buffer('b', None, minimum_delay=d, capacity=2)
+    env = Environment()
+    env._now = now
+    b._env = env
+    p = Part('p')
+    b._buffer = [(s, p)]
+    b._level = 1
+    b._downstream = [Taker()]
+    b._pass_part_downstream()
+    return Taker.taken
+
+
+def lemmas_c05(workdir):
+    import math
+    import struct
+    base = {'name': 'C05-L1', 'solver': 'cvc5 1.0.3 binary (z3 does not decide it within 100 s)', 'queries': 0, 'solver_s': 0.0,
+            'assumptions': ['C05-L1: doubles with 0 <= stored time <= now <= 2**40 and 0 <= minimum delay <= 2**40; single-solver result (cvc5)']}
+    try:
+        mtc, stay = _c05_terms()
+    except Untranslatable as e:
+        return [dict(base, status='inconclusive', detail=f'translator: {e}', lemma_discharged=False)]
+    two40 = '(fp #b0 #b10000100111 #x0000000000000)'     # 2**40
+    zero = '((_ to_fp 11 53) RNE 0.0)'
+    two = '((_ to_fp 11 53) RNE 2.0)'
+    one = '((_ to_fp 11 53) RNE 1.0)'
+    prelude = f"""(set-logic QF_BVFP)
+(declare-const bnow (_ BitVec 64))
+(define-fun now () (_ FloatingPoint 11 53) ((_ to_fp 11 53) bnow))
+(declare-const s (_ FloatingPoint 11 53))
+(declare-const d (_ FloatingPoint 11 53))
+(assert (fp.leq {zero} s)) (assert (fp.leq s now)) (assert (fp.leq now {two40}))
+(assert (fp.leq {zero} d)) (assert (fp.leq d {two40}))
+(define-fun mtc () (_ FloatingPoint 11 53) {mtc})
+(define-fun leave () Bool (not {stay}))
+(assert leave)
+"""
+
+    def query(k):
+        mult = two if k == 2 else one
+        return prelude + f"(assert (fp.lt (fp.sub RTN now s) (fp.sub RTP d (fp.mul RTP {mult} mtc))))\n(check-sat)\n"
+
+    def run(k, limit, values=False):
+        path = os.path.join(workdir, f'c05_l1_{k}ulp.smt2')
+        open(path, 'w').write(query(k) + ('(get-value (bnow s d))\n' if values else ''))
+        t0 = time.time()
+        try:
+            p = subprocess.run(['cvc5', '--produce-models', f'--tlimit={limit * 1000}', path], capture_output=True, text=True, timeout=limit + 30)
+            out = p.stdout.strip()
+        except subprocess.TimeoutExpired:
+            out = 'timeout'
+        except FileNotFoundError:
+            out = 'cvc5 missing'
+        return out, time.time() - t0
+
+    # -- translator validation: formula (evaluated with Python doubles) vs the real method --------------------
+    def model_leaves(now, s, d):
+        mt = math.nextafter(now, math.inf) - now
+        return not ((d - (now - s)) > mt)
+    samples = [(0.30000000000000004, 0.1, 0.2), (1.0, 0.0, 1.0), (3.0, 1.0, 2.0000000000000004), (10.0, 0.0, 10.000000000000002),
+               (1e6, 999999.9, 0.1), (2.0 ** 40, 0.5, 2.0 ** 40), (5.0, 5.0, 0.0), (7.25, 1.125, 6.125), (0.7, 0.1, 0.6),
+               (123456.789, 23456.789, 100000.0), (1.1, 0.2, 0.9000000000000001), (8.0, 0.1, 7.9)]
+    out1, t1 = run(1, 60, values=True)
+    if out1.startswith('sat'):
+        import re
+        vals = re.findall(r'\(fp #b([01]) #b([01]+) #x([0-9a-f]+)\)', out1)
+        bv = re.search(r'\(bnow #x([0-9a-f]{16})\)', out1)
+        try:
+            nowv = struct.unpack('>d', bytes.fromhex(bv.group(1)))[0]
+            fl = [struct.unpack('>d', int(a + b + bin(int(c, 16))[2:].zfill(52), 2).to_bytes(8, 'big'))[0] for a, b, c in vals[-2:]]
+            samples.append((nowv, fl[0], fl[1]))
+        except Exception:
+            pass
+    bad = [(a, b, c) for a, b, c in samples if model_leaves(a, b, c) != _c05_real_leaves(a, b, c)]
+    if bad:
+        return [dict(base, status='error', detail=f'translated guard disagrees with Buffer._pass_part_downstream on {bad[:2]}')]
+    res = [dict(base, name='C05-L1 sanity: the 1-ulp version of the bound is NOT valid (a model exists)',
+                status='proved' if out1.startswith('sat') else 'inconclusive', queries=1, solver_s=round(t1, 1),
+                detail=out1.replace('\n', ' ')[:200], translator_validated_on=len(samples))]
+    out2, t2 = run(2, 400)
+    r = dict(base, name='C05-L1 a part that leaves has waited at least minimum_delay - 2 ulp(now)', queries=1, solver_s=round(t2, 1),
+             detail=out2.replace('\n', ' ')[:200], translator_validated_on=len(samples))
+    first = out2.splitlines()[0] if out2 else ''
+    if '(error' in out2:
+        first = 'error'
+    if first == 'sat':
+        out2, _ = run(2, 400, values=True)
+    if first == 'unsat':
+        r['status'] = 'proved'
+    elif first == 'sat':
+        r.update(status='violated', detail='2-ulp bound fails: ' + out2.replace('\n', ' ')[:300])
+        try:
+            import re
+            bv = re.search(r'\(bnow #x([0-9a-f]{16})\)', out2)
+            vals = re.findall(r'\(fp #b([01]) #b([01]+) #x([0-9a-f]+)\)', out2)
+            nowv = struct.unpack('>d', bytes.fromhex(bv.group(1)))[0]
+            fl = [struct.unpack('>d', int(a + b + bin(int(c, 16))[2:].zfill(52), 2).to_bytes(8, 'big'))[0] for a, b, c in vals[-2:]]
+            leaves = _c05_real_leaves(nowv, fl[0], fl[1])
+            early = (nowv - fl[0]) < fl[1] - 2 * (math.nextafter(nowv, math.inf) - nowv)
+            rp = os.path.join(os.path.dirname(os.path.dirname(os.path.abspath(__file__))), 'replays', 'C05-L1.json')
+            json.dump({'now': nowv, 'stored_time': fl[0], 'minimum_delay': fl[1], 'leaves': leaves}, open(rp, 'w'))
+            r['replay'] = rp
+            if not (leaves and early):
+                r.update(status='error', detail='sat model does not reproduce on the real Buffer: ' + r['detail'])
+        except Exception as e:
+            r.update(status='error', detail=f'could not decode the model: {e}')
+    else:
+        r.update(status='inconclusive', detail='cvc5 answered: ' + out2[:120])
+    res.append(r)
+    return res
+
+
+GROUPS['c05'] = lemmas_c05
+
+
 if __name__ == '__main__':
     main()
